@@ -2,6 +2,7 @@ import Driver.Util
 import NutsModel.C08.State
 import NutsModel.C08.Codec
 import NutsModel.C08.Drop
+import NutsModel.C08.Metric
 import NutsModel.Facts.C08
 open Lean Nuts.Drv Nuts.C08 Nuts
 
@@ -50,6 +51,7 @@ def parseIKey (j : Json) : IKey :=
 
 structure St where
   s : State NB := State.init cfg
+  metric : Nat := 0
   kind : String := "xor"
   tx : Tree (BitVec 256) := Tree.new xorOps 2
   shelfX : List (Nat × BitVec 256) := []
@@ -170,7 +172,7 @@ def codecStep (st : St) (j : Json) : Option String :=
     let xs := sortLex (Codec.encodeXorShelf d.xorLeaves)
     let is := sortLex (Codec.encodeIbltShelf d.ibltLeaves)
     let mt := if d.count == 0 then "-" else s!"{bytesHex (Codec.uint32Key d.lcHigh)}/{bytesHex (Codec.countBytes d.count)}"
-    some s!"raw clk={clk} meta={mt} x=[{",".intercalate (xs.map fun kv => bytesHex kv.1 ++ "=" ++ bytesHex kv.2)}] i=[{",".intercalate (is.map fun kv => bytesHex kv.1 ++ "=" ++ toString (bytesDigest kv.2))}]"
+    some s!"raw clk={clk} meta={mt} x=[{",".intercalate (xs.map fun kv => bytesHex kv.1 ++ "=" ++ bytesHex kv.2)}] i=[{",".intercalate (is.map fun kv => bytesHex kv.1 ++ "=" ++ toString (bytesDigest kv.2))}] metric={st.metric}"
   | _ => none
 
 def step (st : St) (j : Json) : St × List String :=
@@ -179,18 +181,22 @@ def step (st : St) (j : Json) : St × List String :=
   | none =>
   match jStr j "op" with
   -- ---------------- state level
-  | "new" => let st := { st with s := State.init cfg }; (st, ["new | " ++ observe st.s j])
+  | "new" => let st := { st with s := State.init cfg, metric := 0 }; (st, ["new | " ++ observe st.s j])
+  | "mstart" =>
+    let st := { st with metric := metricAfterStart st.metric st.s.disk.count }
+    (st, [s!"mstart metric={st.metric}"])
   | "add" =>
     let tx := parseTx (jObj j "tx")
     let payload := match jStr j "payload" with | "ok" => some true | "bad" => some false | _ => none
     let r := add cfg st.s tx { payload := payload, commitFails := jStr j "fail" != "none" && jStr j "fail" != "",
                                savePayloadEventFails := jStr j "save" == "payload", saveTxEventFails := jStr j "save" == "tx",
                                putFails := if jNat j "put" > 0 then some (jNat j "put") else none }
-    ({ st with s := r.1 }, [if jBool j "quiet" then resStr r.2 else resStr r.2 ++ " | " ++ observe r.1 j])
+    ({ st with s := r.1, metric := metricAfterAdd st.metric (st.s.disk.isPresent tx.ref) r.2 },
+     [if jBool j "quiet" then resStr r.2 else resStr r.2 ++ " | " ++ observe r.1 j])
   | "batch" => (st, ["batch"])
   | "race" => (st, ["race"])
   | "obs" => (st, ["obs | " ++ observe st.s j])
-  | "restart" => let s := restart cfg st.s; ({ st with s := s }, ["restart | " ++ observe s j])
+  | "restart" => let s := restart cfg st.s; ({ st with s := s, metric := 0 }, ["restart | " ++ observe s j])
   | "corruptDisk" =>
     let s := corruptDisk st.s (jNat j "key") (parseRef j "val"); ({ st with s := s }, ["corruptDisk | " ++ observe s j])
   | "corruptMem" =>
@@ -202,7 +208,7 @@ def step (st : St) (j : Json) : St × List String :=
     let s0 := signalIncorrect (signalIncorrect st.s)
     let k := 2 * (s0.mem.lcHigh / cfg.pageSize + 1) + 2
     let s := (List.range k).foldl (fun s _ => checkPage cfg s) s0
-    ({ st with s := s }, ["liveRepair | " ++ observe s j])
+    ({ st with s := s, metric := metricAfterStart st.metric st.s.disk.count }, ["liveRepair | " ++ observe s j])
   | "checkRace" =>
     -- an Add that commits after checkPage read the atomic clock and before its write transaction
     let tx := parseTx (jObj j "tx")
@@ -210,7 +216,7 @@ def step (st : St) (j : Json) : St × List String :=
     let lcSeen := st.s.mem.lcHigh
     let r := add cfg st.s tx { payload := payload }
     let s := checkPageWith cfg lcSeen r.1
-    ({ st with s := s }, [s!"checkRace {resStr r.2} page={s.mem.repairPage} | " ++ observe s j])
+    ({ st with s := s, metric := metricAfterAdd st.metric (st.s.disk.isPresent tx.ref) r.2 }, [s!"checkRace {resStr r.2} page={s.mem.repairPage} | " ++ observe s j])
   | "check" =>
     let s := checkPage cfg st.s; ({ st with s := s }, [s!"check page={s.mem.repairPage} | " ++ observe s j])
   -- ---------------- tree level
